@@ -33,7 +33,7 @@ pub fn render_cc(c: &ConcCase, r: &RunResult) -> String {
     .iter()
     .enumerate()
     .map(|(i, t)| {
-      let case = Case { root: Node::Src(0, Src::Empty), hots: vec![], hot_illformed: false, conn: None, conn_take: None, recorders: vec![], actions: t.clone() };
+      let case = Case { root: Node::Src(0, Src::Empty), hots: vec![], hot_illformed: false, conn: None, conn_take: None, conn_take_only: None, recorders: vec![], actions: t.clone() };
       let s = case.show();
       format!("T{}[{}]", i + 1, s.split(" | ").nth(2).unwrap_or("").trim())
     })
@@ -180,7 +180,7 @@ pub fn c11_strategy(_ctx: &Ctx) -> BoxedStrategy<C11Case> {
       if lens[2] % 2 == 0 {
         threads.push(vec![Action::IsSubscribed(0); 1 + lens[2]]);
       }
-      let case = Case { root, hots, hot_illformed: false, conn: None, conn_take: None, recorders: vec![vec![]], actions: vec![Action::Subscribe(0)] };
+      let case = Case { root, hots, hot_illformed: false, conn: None, conn_take: None, conn_take_only: None, recorders: vec![vec![]], actions: vec![Action::Subscribe(0)] };
       C11Case { cc: ConcCase { case, threads, sched }, shape: shape.to_string(), scripts: out_items, take, agg }
     })
     .boxed()
@@ -459,7 +459,7 @@ pub fn c19_strategy(_ctx: &Ctx) -> BoxedStrategy<C19Case> {
       } else {
         vec![Action::Subscribe(0)]
       };
-      let case = Case { root, hots, hot_illformed: false, conn: None, conn_take: None, recorders: vec![vec![]], actions };
+      let case = Case { root, hots, hot_illformed: false, conn: None, conn_take: None, conn_take_only: None, recorders: vec![vec![]], actions };
       C19Case { cc: ConcCase { case, threads, sched }, shape: shape.to_string() }
     })
     .boxed()
@@ -603,7 +603,7 @@ pub fn c12_strategy(ctx: &Ctx) -> BoxedStrategy<C12Case> {
       let case = Case {
         root,
         hots: vec![kind.clone()],
-        hot_illformed: false, conn: None, conn_take: None,
+        hot_illformed: false, conn: None, conn_take: None, conn_take_only: None,
         recorders: vec![vec![], vec![], vec![], vec![]],
         actions: pre_actions,
       };
@@ -926,7 +926,7 @@ pub fn c09_strategy(_ctx: &Ctx, for_c05: bool) -> BoxedStrategy<C09Case> {
       let case = Case {
         root,
         hots: if hot { vec![HotKind::Harness] } else { vec![] },
-        hot_illformed: false, conn: None, conn_take: None,
+        hot_illformed: false, conn: None, conn_take: None, conn_take_only: None,
         recorders,
         actions,
       };
@@ -1199,7 +1199,7 @@ pub fn c05_plain_strategy(_ctx: &Ctx) -> BoxedStrategy<C05Case> {
       t.push(Action::Unsub(0));
       threads.push(t);
       let hots = if two { vec![kind, HotKind::Harness] } else { vec![kind] };
-      let case = Case { root, hots, hot_illformed: false, conn: None, conn_take: None, recorders: vec![vec![]], actions: vec![Action::Subscribe(0)] };
+      let case = Case { root, hots, hot_illformed: false, conn: None, conn_take: None, conn_take_only: None, recorders: vec![vec![]], actions: vec![Action::Subscribe(0)] };
       C05Case { cc: ConcCase { case, threads, sched } }
     })
     .boxed()
@@ -1275,7 +1275,7 @@ pub fn c14_conc_strategy(_ctx: &Ctx) -> BoxedStrategy<C14ConcCase> {
   let cfg = crate::gen::GenCfg { max_script: 5, ..crate::gen::GenCfg::default() };
   (crate::gen::chain(&cfg, 1, 3), sched_strategy())
     .prop_map(|(root, sched)| {
-      let case = Case { root, hots: vec![], hot_illformed: false, conn: None, conn_take: None, recorders: vec![vec![], vec![]], actions: vec![] };
+      let case = Case { root, hots: vec![], hot_illformed: false, conn: None, conn_take: None, conn_take_only: None, recorders: vec![vec![], vec![]], actions: vec![] };
       C14ConcCase { cc: ConcCase { case, threads: vec![vec![Action::Subscribe(0)], vec![Action::Subscribe(1)]], sched } }
     })
     .boxed()
